@@ -78,14 +78,17 @@ func vMultS(as []vAtom, x int, rev bool) int {
 }
 
 //verif:harness prop=C10 quick=4 thorough=8 merge=concrete timeout=1500
-//verif:bounds API level: sequence of 5 (quick) / 6 (thorough) symbolic residues, one tagged feature (range | 2-part join in any order, incl. descending/overlapping parts | complemented range | 2-part order) with symbolic coordinates and partial flags plus a source; 1 (quick) / 1..2 (thorough) cut positions anywhere in [0,L] (cuts at 0, at L and coinciding cuts included); Slice for every piece, Concat in order
+//verif:bounds API level: sequence of 5 (quick) / 6 (thorough) symbolic residues, one tagged feature (range | 2-part join in any order, incl. descending/overlapping parts | complemented range | 2-part order) with symbolic coordinates and partial flags, with or without a source (without: pieces that carry no feature); 1 (quick) / 1..2 (thorough) cut positions anywhere in [0,L] (cuts at 0, at L and coinciding cuts included); Slice for every piece, Concat in order
 func VH_C10_slice_concat() {
 	sh := vShard(4 + 4*vTier())
 	L := 5 + vTier()
 	data := vBytes("r", L)
 	loc := vGenApiLoc("f", L, sh%4)
 	ff := FeatureSlice{}
-	ff = ff.Insert(Feature{"source", Range(0, L), vFeatTag(0)})
+	if vBool("src") {
+		// with a source every piece carries a feature; without one a piece may carry none
+		ff = ff.Insert(Feature{"source", Range(0, L), vFeatTag(0)})
+	}
 	ff = ff.Insert(Feature{"gene", loc, vFeatTag(1)})
 	seq := Sequence(New(nil, ff, data))
 	c1 := vIntIn("c1", 0, L)
@@ -133,7 +136,7 @@ func VH_C10_slice_concat() {
 }
 
 //verif:harness prop=C10 quick=2 thorough=4 merge=concrete
-//verif:bounds Concat of a head of 0..3 residues, a middle of 0..2 residues and a tail of 2 (quick) / 2..3 residues; the middle and the tail each hold one atom (range with flags | point | between-site incl. the site before the first residue) with symbolic coordinates: every feature lands at its own coordinates plus the length of everything before its piece, kind, strand and flags unchanged
+//verif:bounds Concat of a head of 0..3 residues, a middle of 0..2 residues and a tail of 2 (quick) / 2..3 residues; the middle (unless it is bare: residues without any feature) and the tail each hold one atom (range with flags | point | between-site incl. the site before the first residue) with symbolic coordinates: every feature lands at its own coordinates plus the length of everything before its piece, kind, strand and flags unchanged
 func VH_C10_concat_offsets() {
 	sh := vShard(2 + 2*vTier())
 	Lc := 2 + sh/2
@@ -153,6 +156,10 @@ func VH_C10_concat_offsets() {
 		return New(nil, ff, vBytes(name+"r", L)), loc
 	}
 	b, locB := mk("g", Lb, 1)
+	if Lb > 0 && vBool("g.bare") {
+		// a middle piece with residues and no feature at all (what a cut through an intergenic stretch gives)
+		b, locB = New(nil, nil, vBytes("gr", Lb)), nil
+	}
 	c, locC := mk("f", Lc, 2)
 	out := Concat(a, b, c)
 	vCover("concatenated")
